@@ -725,6 +725,50 @@ def closure_context(prog, cb, depth=0):
     return mp
 
 
+LAZY_CONSUMERS = r"(bool::<impl bool>::then|(option::Option|result::Result)::<.*>::(map|and_then|map_or|map_or_else|unwrap_or_else|or_else|filter|is_some_and|is_ok_and|ok_or_else|map_err|inspect|inspect_err|is_none_or|get_or_insert_with))$"
+
+
+def closure_entry_facts(prog, root, cb, depth=0):
+    """what is known whenever closure `cb` (created, directly or through enclosing closures, in the function whose body with helpers
+    expanded is `root`) starts to run: one fact set (in root's terms) per feasible way to the call that runs it.  The closure must be
+    handed to exactly one call that runs it at once and at most when reached (bool::then - which adds that the receiver is true -,
+    Option/Result combinators, iterator consumers); None when the call is of another kind (the closure is then judged on its own)."""
+    cons = closure_consumer(prog, cb)
+    if cons is None or depth > 3:
+        return None
+    par, bb, t, _el = cons
+    if not (call_matches(t, LAZY_CONSUMERS) or call_matches(t, ITER_CONSUMERS)):
+        return None
+    if par.kind == "Closure":
+        outer = closure_entry_facts(prog, root, par, depth + 1)
+        if outer is None:
+            return None
+        pm = closure_context(prog, par)
+        pbody = par
+    else:
+        if par.path != root.path or bb >= len(par.blocks):
+            return None
+        outer, pm, pbody = [frozenset()], {}, root      # blocks of the function itself keep their numbers in the expanded body
+    pe = PathEval(pbody)
+    ps = pe.at(bb)
+    if ps is None:
+        return None
+    out = []
+    for facts, env in ps:
+        extra = set()
+        if call_matches(t, r"bool::<impl bool>::then$") and t["args"]:
+            v = pe._val(env, t["args"][0])
+            if v is not None and v[0] == "c":
+                if v[1] == 0:
+                    continue        # receiver known false on this way: the closure does not run
+            elif v is not None:
+                extra = set(implied(v, True))
+        here = frozenset((sub_terms(x, pm), rel, sub_terms(y, pm)) for (x, rel, y) in set(facts) | extra)
+        for o in outer:
+            out.append(o | here)
+    return out
+
+
 def _closure_of_term(prog, owner, term):
     """(closure Body, [capture terms]) for a term `closure:{closure#k}[c0, c1]` computed inside body `owner`"""
     m = re.match(r"^closure:(\{closure#\d+\})\[(.*)\]$", term)
@@ -874,35 +918,50 @@ def run(ctx):
             continue
         # private helpers (a shared `is_outside`, a checked-offset routine, ..) are looked through
         b = inlined_private(prog, path, keep=KEEP7)
-        acc = [(bb, t) for bb, t in b.calls() if call_matches(t, getter) or call_matches(t, r"Index(Mut)?.*::index(_mut)?$")]
-        for bb, t in b.terms():
-            if t["k"] == "assert" and t["msg"]["kind"] == "BoundsCheck":
-                acc.append((bb, t))
-        if not acc:
+        # the access may sit in the function itself or in a closure it runs (`inside.then(|| data.get_mut(..))`, `opt.and_then(|o| ..)`):
+        # (body, term map into the function's terms, what is known on entry) per subject
+        def _accs(x):
+            out = [(bb, t) for bb, t in x.calls() if call_matches(t, getter) or call_matches(t, r"Index(Mut)?.*::index(_mut)?$")]
+            for bb, t in x.terms():
+                if t["k"] == "assert" and t["msg"]["kind"] == "BoundsCheck":
+                    out.append((bb, t))
+            return out
+        subjects = [(b, {}, [frozenset()], _accs(b))]
+        for cb in prog.bodies:
+            if cb.kind == "Closure" and cb.closure_root == path and _accs(cb):
+                ef = closure_entry_facts(prog, b, cb)
+                subjects.append((cb, closure_context(prog, cb), ef if ef is not None else [frozenset()], _accs(cb)))
+        if not any(a for _x, _mp, _ef, a in subjects):
             ctx.anchor("U2-GET", path + "/access")
             continue
-        pe = PathEval(b)
-        for abb, at in acc:
-            # on every way to the access: pos.row < <own shape>.height and pos.col < <own shape>.width, whatever spelled the test
-            # (>=/< either operand order, !, &&, ||, early returns, match, a bool local, Range::contains, a helper predicate)
-            need = {}
-            for ax, dim in (("row", "height"), ("col", "width")):
-                need[ax] = pe.always(abb, lambda x, rel, y, ax=ax, dim=dim: rel == "<" and x == "arg2." + ax and y.endswith("." + dim) and "shape(arg1)" in y[:-len(dim) - 1])
-            # the offset must be shape.offset(pos)
-            off_ok = True
-            oop = at["args"][1] if (at["k"] == "call" and len(at["args"]) > 1) else at["msg"]["index"] if at["k"] == "assert" else None
-            if oop is not None:
-                # on every way to the access (e.g. out of a helper that returns Some(offset) / None)
-                oes = pe.terms(abb, oop)
-                off_ok = oes is not None and all(re.match(r"^Shape::offset\(.*shape\(arg1\), arg2\)$", oe) for oe in oes)
-            ctx.instance("U2-GET", {"fn": path, "row_guard": need["row"], "col_guard": need["col"], "offset_is_shape_offset": off_ok})
-            for ax in ("row", "col"):
-                if not need[ax]:
-                    ctx.violation("U2-GET", path, "missing-%s-guard" % ax,
-                                  "%s reaches the data without checking pos.%s against the view's %s: positions outside the window would alias other cells of the parent" % (path, ax, "height" if ax == "row" else "width"),
-                                  sites=[b.loc])
-            if not off_ok:
-                ctx.violation("U2-GET", path, "offset", "the accessed index is not shape.offset(pos)", sites=[b.loc])
+        for sb, mp, entry, acc in subjects:
+            pe = PathEval(sb)
+            res = pe.at({abb for abb, at in acc}) if acc else {}
+            for abb, at in acc:
+                # on every way to the access: pos.row < <own shape>.height and pos.col < <own shape>.width, whatever spelled the test
+                # (>=/< either operand order, !, &&, ||, early returns, match, a bool local, Range::contains, a helper predicate,
+                # the receiver of bool::then when the access is in its closure)
+                inner = None if res is None else [frozenset((sub_terms(x, mp), rel, sub_terms(y, mp)) for (x, rel, y) in facts) for facts, env in (res.get(abb) or [])]
+                need = {}
+                for ax, dim in (("row", "height"), ("col", "width")):
+                    good = lambda fs, ax=ax, dim=dim: any(rel == "<" and x == "arg2." + ax and y.endswith("." + dim) and "shape(arg1)" in y[:-len(dim) - 1] for (x, rel, y) in fs)
+                    # every (way to the closure, way inside it) pair knows the bound <=> all ways outside know it or all ways inside do
+                    need[ax] = inner is not None and (all(good(fs) for fs in entry) or all(good(fs) for fs in inner))
+                # the offset must be shape.offset(pos)
+                off_ok = True
+                oop = at["args"][1] if (at["k"] == "call" and len(at["args"]) > 1) else at["msg"]["index"] if at["k"] == "assert" else None
+                if oop is not None:
+                    # on every way to the access (e.g. out of a helper that returns Some(offset) / None)
+                    oes = pe.terms(abb, oop)
+                    off_ok = oes is not None and all(re.match(r"^Shape::offset\(.*shape\(arg1\), arg2\)$", sub_terms(oe, mp)) for oe in oes)
+                ctx.instance("U2-GET", {"fn": path, "in": sb.path, "row_guard": need["row"], "col_guard": need["col"], "offset_is_shape_offset": off_ok})
+                for ax in ("row", "col"):
+                    if not need[ax]:
+                        ctx.violation("U2-GET", path, "missing-%s-guard" % ax,
+                                      "%s reaches the data without checking pos.%s against the view's %s: positions outside the window would alias other cells of the parent" % (path, ax, "height" if ax == "row" else "width"),
+                                      sites=[b.loc])
+                if not off_ok:
+                    ctx.violation("U2-GET", path, "offset", "the accessed index is not shape.offset(pos)", sites=[b.loc])
 
     # ---------------- U3 Shape literal sites ---------------------------------------------------------------
     ctx.rule("U3-SHAPE", "Shape literals only in From<Size>::from, Shape::view (2) and Surface::transpose, with the expected field templates", floor=4)
